@@ -107,12 +107,13 @@ ThmCliExpected ==
             cov == << <<1, 0, 1, 0, 1>>, <<2, 0, 1, 3, 3>> >>
         IN ExpectedOut(o, cov, tiles) = CliExpected(o, tiles)
 
+RecompMetaName == "c04 name é"          \* the `name` of the source metadata in the recompression cases
 CliRecompFails(r) ==
     LET want == DeclaredOut(r.src_tc, r.target) IN
     Fails("cli_exit", r.exit = 0) \cup
     (IF r.exit # 0 THEN {} ELSE
      Fails("cli_file_payload", r.file.ok = 1 /\ r.file.tiles = r.tiles /\ r.file.tc = want) \cup
-     Fails("cli_file_meta", r.file.ok = 0 \/ r.file.meta_ok = 1))
+     Fails("cli_file_meta", r.file.ok = 0 \/ r.file.meta_name = RecompMetaName))
 
 (* C04: recompression.  ids in `lookups'/`walk'/`file' were obtained by decoding the delivered bytes with
    the DECLARED output codec and comparing with the raw source payload. *)
@@ -124,5 +125,5 @@ RecompFails(r) ==
      Fails("lookup_payload", r.lookups = r.tiles) \cup
      Fails("stream_payload", r.walk_ok = 1 /\ r.walk = r.tiles) \cup
      Fails("file_payload", r.file.skip = 1 \/ (r.file.ok = 1 /\ r.file.tiles = r.tiles /\ r.file.tc = want)) \cup
-     Fails("file_meta", r.file.skip = 1 \/ r.file.ok = 0 \/ r.file.meta_ok = 1))
+     Fails("file_meta", r.file.skip = 1 \/ r.file.ok = 0 \/ r.file.meta_name = RecompMetaName))
 =============================================================================
